@@ -168,10 +168,11 @@ Section MaxMin.
 End MaxMin.
 
 (* ---------- the fixed proof scripts of the generated equality theorems ---------- *)
+Ltac bx_arith := repeat (first [reflexivity | lia | progress f_equal]).
 Ltac bx_fin :=
   cbn; rewrite ?andb_false_r, ?andb_true_r, ?orb_false_r, ?orb_true_r;
   repeat match goal with |- context [if ?c then _ else _] => destruct c eqn:? end;
-  first [reflexivity | congruence | repeat f_equal; lia | exfalso; lia].
+  first [reflexivity | congruence | solve [bx_arith] | exfalso; lia].
 
 (* helpers on python values: split every argument into -inf / 0 / positive / negative / +inf *)
 Ltac bx_ext := intros;
